@@ -91,7 +91,7 @@ let () =
         (match (try Some (parse line) with Failure _ -> None) with
          | Some (L [I fn; arg]) -> print buf (run fn arg)
          | _ -> Buffer.add_string buf "(63)");
-        print_string (Buffer.contents buf); print_char '\n'; flush stdout
+        print_string (Buffer.contents buf); print_char '\n'; Stdlib.flush Stdlib.stdout
       end
     done
   with End_of_file -> ())
